@@ -12,7 +12,7 @@ def on_disagreement(c, binary, ln, il, ml, d):
     cont, cmpn, ops = f[0], f[1], f[3:]
     i, fld, ri, rm = d
     opn = rb.OPNAME.get((cont, ops[i].split(",")[0]), "?") if i < len(ops) else "?"
-    sig = "C01:%s:%s:%s" % (cont, opn, rb.FIELD[fld] if ri[0] != "panic" else "panic")
+    sig = "C01:%s:%s:%s" % (cont, opn, rb.FIELD[fld] if not rb.is_abort(ri[0]) else "panic-or-hang")
     if any(len(v) > 2 and v[2] == sig for v in c.violations) or len(c.violations) >= 6:
         c.cov["disagreeing_histories"] = c.cov.get("disagreeing_histories", 0) + 1
         return
@@ -20,9 +20,9 @@ def on_disagreement(c, binary, ln, il, ml, d):
 
     def both(cand):
         line = "%s %s 1 %s" % (cont, cmpn, " ".join(cand))
-        rc, impl, err = c.run_impl(binary, ["c01"], line + "\n")
+        impl = rb.run_impl(c, binary, [line], timeout=60)
         spec = rb.run_spec(c, [line])
-        a = impl[0] if impl else "<no output rc=%s>" % rc
+        a = impl[0]
         return line, a, spec[0], rb.first_diff(cont, a, spec[0], rb.API)
 
     line, a, sp, ds = both(ops)
@@ -34,7 +34,7 @@ def on_disagreement(c, binary, ln, il, ml, d):
                  {"kind": "correspondence", "case": ln[:4000], "op_index": i, "implementation": ";".join(ri)[:2000],
                   "model": ";".join(rm)[:2000]}, found_input=False)
         return
-    trunc = ops[:ds[0] + 1]
+    trunc = ops if a.startswith("<") else ops[:ds[0] + 1]     # a hang / crash loses the whole line
     mini = rb.minimise(trunc, lambda cand: both(cand)[3] is not None)
     comp = rb.compact_keys(mini, cmpn)
     if both(comp)[3] is not None:
